@@ -70,6 +70,8 @@ type proxy struct {
 	mu     sync.Mutex
 	conns  []*pconn
 	total  atomic.Int64
+	// while set, every new connection is refused (a process that is gone does not talk)
+	blocked atomic.Bool
 }
 
 func newProxy() (*proxy, error) {
@@ -87,6 +89,10 @@ func (p *proxy) serve() {
 		c, err := p.l.Accept()
 		if err != nil {
 			return
+		}
+		if p.blocked.Load() {
+			_ = c.Close()
+			continue
 		}
 		go func() {
 			t := p.target.Load()
@@ -596,6 +602,20 @@ func runScenario(sc scen) (res result) {
 			if !s.shutdown() {
 				res.notes = append(res.notes, "Shutdown did not return")
 			}
+			// the restart of a hub is the end of its PROCESS: every TCP connection of the old
+			// hub object dies with it, including one that its web server had accepted but not
+			// yet registered when Shutdown ran (http.Server.Shutdown leaves hijacked
+			// connections alone, and the old object would finish that handshake), and a dial
+			// of the old object that was in flight.  Nothing of it may talk to the peer again.
+			a.px.blocked.Store(true)
+			b.px.blocked.Store(true)
+			a.px.cutAll()
+			b.px.cutAll()
+			time.Sleep(150 * time.Millisecond)
+			a.px.cutAll()
+			b.px.cutAll()
+			a.px.blocked.Store(false)
+			b.px.blocked.Store(false)
 			s.app = &app{rx: map[string]api.ShipConnectionDataWriterInterface{}}
 			s.start()
 			// the restarted hub's browser finds the peer again, the peer sees the new announcement
